@@ -2,6 +2,9 @@ package logqlmetric
 
 import (
 	"regexp"
+	"slices"
+
+	"golang.org/x/exp/maps"
 
 	"github.com/tdakkota/docker-logql/internal/logql"
 	"github.com/tdakkota/docker-logql/internal/lokiapi"
@@ -9,6 +12,14 @@ import (
 
 // GroupingKey is a key to group metrics by label.
 type GroupingKey = uint64
+
+// sortedKeys returns the keys of m in ascending order, so that iteration over
+// grouped samples does not depend on map iteration order.
+func sortedKeys[V any](m map[GroupingKey]V) []GroupingKey {
+	keys := maps.Keys(m)
+	slices.Sort(keys)
+	return keys
+}
 
 // AggregatedLabels is a set of labels.
 type AggregatedLabels interface {
